@@ -22,6 +22,7 @@ def run_history(h, d, seed, profile, stats, length, build="osmosis", monitors=No
                                           "signature": {"entry": "instantiate", "variant": "instantiate", "site": M.classify_panic(c["result"]["panic"])},
                                           "what": "instantiate panics: %s" % c["result"]["panic"][:120],
                                           "upto": 1, "event": hist.events[0]})
+            M.m_boot_messages(hist)
             if booted:
                 M.m_boot_config(hist)
         if not booted:
